@@ -46,15 +46,3 @@ func verifInstallAsm(avx2 bool) {
 		TransformUV = transformUVAVX2
 	}
 }
-
-// Assembly entry points that no table slot or wrapper reaches on its own.
-
-// VerifYUVPackedBatch runs the batch YUV→NRGBA converters directly
-// (width must be a multiple of 4 for SSE2, of 8 for AVX2).
-func VerifYUVPackedBatch(avx2 bool, y []byte, packedUV []uint32, dst []byte, width int) {
-	if avx2 {
-		yuvPackedToNRGBABatchAVX2(y, packedUV, dst, width)
-		return
-	}
-	yuvPackedToNRGBABatchSSE2(y, packedUV, dst, width)
-}
